@@ -234,6 +234,9 @@ pub struct C12RMon {
     /// not repeating its own pass): what "a rotation" is is undefined until two clean identical rotations
     /// have been seen again; the 'ready' judgement is suspended meanwhile
     pub suspended: bool,
+    /// the last status request to the station was followed by another telegram in the SAME poll of the
+    /// station (a burst): the requester has moved on, the request must not be answered any more
+    pub request_stale: bool,
     /// the witnessed passes with valid addresses, re-tries of the same sender collapsed into its last pass
     pub passes: Vec<(u8, u8)>,
 }
@@ -398,6 +401,10 @@ impl W2State {
                 return;
             }
         };
+        if self.c12r.request_stale {
+            self.report("c12.reply.to_stale_request", format!("status reply {} to a request that was followed by another telegram before the station looked at the bus", f.short()));
+            return;
+        }
         if !(req.is_fdl_status_req() && req.da() == Some(ts)) {
             self.report("c12.reply.to_request_for_another_station", format!("status reply {} after {}", f.short(), req.short()));
             return;
@@ -473,6 +480,7 @@ impl W2State {
                     if f.is_fdl_status_req() && f.da() == Some(self.cfg.ts) {
                         self.c12r.last_delivery = Some((f.clone(), end, self.station.is_in_ring(), ps));
                         self.c12r.answered = false;
+                        self.c12r.request_stale = false;
                     } else if let Some((_, e, _, _)) = self.c12r.last_delivery.as_mut() {
                         // other traffic after the request: timing of a late reply is not judged
                         *e = i64::MAX / 4;
@@ -604,6 +612,14 @@ impl W2State {
                 // like Tel with a 33 bit gap, but the station is not polled between the telegrams
                 let e_us = self.bus.quiet_from_us();
                 let mut t_send = self.now.max(e_us + self.gap_us(Gap::G33));
+                if self.cfg.mon == W2Mon::C12R {
+                    // a conforming requester leaves the addressed station its slot time to answer
+                    if let Some((req, end, _, _)) = &self.c12r.last_delivery {
+                        if req.is_fdl_status_req() && req.da() == Some(self.cfg.ts) && !self.c12r.answered {
+                            t_send = t_send.max(self.bus.us_ceil(*end) + self.slot_us + 3 * self.p_us);
+                        }
+                    }
+                }
                 let mark = self.bus.trace.len();
                 while self.now + self.p_us < t_send {
                     self.now += self.p_us;
@@ -612,8 +628,20 @@ impl W2State {
                         return true;
                     }
                 }
-                for bytes in parts {
-                    self.peer_send(t_send, bytes, None);
+                for (bi, bytes) in parts.iter().enumerate() {
+                    if self.cfg.mon == W2Mon::C12R && bi > 0 {
+                        if let Some((req, _, _, _)) = &self.c12r.last_delivery {
+                            if req.is_fdl_status_req() && req.da() == Some(self.cfg.ts) && !self.c12r.answered {
+                                self.c12r.request_stale = true;
+                            }
+                        }
+                    }
+                    // the reply monitor of C12 wants to know what the telegrams are
+                    let frame = match (self.cfg.mon, rc::decode(bytes)) {
+                        (W2Mon::C12R, rc::RDec::Frame(f, n)) if n == bytes.len() => Some(f),
+                        _ => None,
+                    };
+                    self.peer_send(t_send, bytes, frame.as_ref());
                     t_send = self.bus.quiet_from_us() + self.gap_us(Gap::G33);
                 }
                 let end_us = self.bus.quiet_from_us();
@@ -1001,7 +1029,7 @@ impl W2State {
             let m = &self.c12r;
             b.extend_from_slice(format!("{:?}|{:?}|{:?}|{}|{}|{}", m.last_delivery.as_ref().map(|(f, e, r, p)| (f.short(), (self.bus.scaled(self.now) - e).clamp(-1, 300 * BIT), *r, *p)), m.cur_rotation, m.prev_rotation, m.identical.min(3), m.claimed, m.answered).as_bytes());
             b.push(m.ever_identical as u8);
-            b.extend_from_slice(format!("{:?}|{}|{:?}", m.last_token, m.suspended, &m.passes[m.passes.len().saturating_sub(8)..]).as_bytes());
+            b.extend_from_slice(format!("{:?}|{:?}|{:?}", m.last_token, (m.suspended, m.request_stale), &m.passes[m.passes.len().saturating_sub(8)..]).as_bytes());
         }
         fnv64(&b)
     }
